@@ -11,46 +11,74 @@ structure StaticOK (f : PubF) : Prop where
 
 /-- a running Publish: its snapshot header is protected and still denotes the ghost snapshot; what it
     has delivered so far is exactly the first `k` elements of the snapshot -/
-structure PubOK (hp : Heap) (subs : Hdr) (n : Nat) (f : PubF) : Prop where
+structure PubOK (hp : Heap) (subs : Hdr) (n : Nat) (sil : Nat → Bool) (f : PubF) : Prop where
   prot : Prot hp subs f.h
   same : content hp f.h = f.snap
   len : f.snap.length = f.h.len
   k_le : f.k ≤ f.h.len
-  dl : f.dl = f.snap.take f.k
+  dl : f.dl = (f.snap.take f.k).filter (fun x => !sil x)
   n0_le : f.n0 ≤ n
   gone : ∀ x, 0 < x → x < f.n0 → x ∉ f.snap → x ∉ content hp subs
   static : StaticOK f
 
-def FrameOK (hp : Heap) (subs : Hdr) (n : Nat) : Frame → Prop
+def FrameOK (hp : Heap) (subs : Hdr) (n : Nat) (sil : Nat → Bool) : Frame → Prop
   | .cb => True
   | .unsub x => 0 < x ∧ x < n
-  | .pub f => PubOK hp subs n f
+  | .pub f => PubOK hp subs n sil f
 
 /-- a finished Publish -/
-structure RecOK (r : PubRec) : Prop where
-  all : r.f.dl = r.f.snap
+structure RecOK (n : Nat) (sil : Nat → Bool) (r : PubRec) : Prop where
+  all : r.f.dl = r.f.snap.filter (fun x => !sil x)
+  n0_le : r.f.n0 ≤ n
   static : StaticOK r.f
   kept : ∀ x, 0 < x → x < r.f.n0 → x ∈ r.regEnd → x ∈ r.f.snap
 
 structure Inv (s : State) : Prop where
   wf : WF s.heap s.subs s.nextId
-  frames : ∀ t, ∀ fr ∈ s.stacks t, FrameOK s.heap s.subs s.nextId fr
+  frames : ∀ t, ∀ fr ∈ s.stacks t, FrameOK s.heap s.subs s.nextId s.silent fr
   done : ∀ x ∈ s.unsubDone, 0 < x ∧ x < s.nextId ∧ x ∉ content s.heap s.subs
-  ended : ∀ r ∈ s.ended, RecOK r
+  ended : ∀ r ∈ s.ended, RecOK s.nextId s.silent r
   hq : s.posted.reverse = s.hlog.reverse ++ s.mailbox
 
-theorem PubOK.ext {hp subs n hp' subs' n' f} (e : Ext hp subs n hp' subs' n') (p : PubOK hp subs n f) :
-    PubOK hp' subs' n' f := by
+theorem PubOK.ext {hp subs n hp' subs' n' sil f} (e : Ext hp subs n hp' subs' n') (p : PubOK hp subs n sil f) :
+    PubOK hp' subs' n' sil f := by
   have ⟨hc, hpr⟩ := e.frozen f.h p.prot
   exact ⟨hpr, by rw [hc]; exact p.same, p.len, p.k_le, p.dl, Nat.le_trans p.n0_le e.n_le,
     fun x h0 hx hs => e.gone x h0 (Nat.lt_of_lt_of_le hx p.n0_le) (p.gone x h0 hx hs), p.static⟩
 
-theorem FrameOK.ext {hp subs n hp' subs' n' fr} (e : Ext hp subs n hp' subs' n') (p : FrameOK hp subs n fr) :
-    FrameOK hp' subs' n' fr := by
+theorem FrameOK.ext {hp subs n hp' subs' n' sil fr} (e : Ext hp subs n hp' subs' n') (p : FrameOK hp subs n sil fr) :
+    FrameOK hp' subs' n' sil fr := by
   cases fr with
   | cb => trivial
   | unsub x => exact ⟨p.1, Nat.lt_of_lt_of_le p.2 e.n_le⟩
   | pub f => exact PubOK.ext e p
+
+/-- marking a not yet issued id as silent changes nothing for ids issued before -/
+theorem filter_upd_sil {l : List Nat} {sil : Nat → Bool} {n : Nat} (h : ∀ x ∈ l, x < n) :
+    l.filter (fun x => !upd sil n true x) = l.filter (fun x => !sil x) := by
+  apply List.filter_congr
+  intro x hx
+  rw [upd_other _ _ _ _ (Nat.ne_of_lt (h x hx))]
+
+theorem PubOK.sil {hp subs n sil f} (p : PubOK hp subs n sil f) : PubOK hp subs n (upd sil n true) f := by
+  refine ⟨p.prot, p.same, p.len, p.k_le, ?_, p.n0_le, p.gone, p.static⟩
+  rw [p.dl]
+  exact (filter_upd_sil (fun x hx =>
+    Nat.lt_of_lt_of_le (p.static.old x ((List.take_sublist _ _).subset hx)).2 p.n0_le)).symm
+
+theorem FrameOK.sil {hp subs n sil fr} (p : FrameOK hp subs n sil fr) : FrameOK hp subs n (upd sil n true) fr := by
+  cases fr with
+  | cb => trivial
+  | unsub x => exact p
+  | pub f => exact PubOK.sil p
+
+theorem RecOK.mono {n n' sil r} (p : RecOK n sil r) (h : n ≤ n') : RecOK n' sil r :=
+  ⟨p.all, Nat.le_trans p.n0_le h, p.static, p.kept⟩
+
+theorem RecOK.sil {n sil r} (p : RecOK n sil r) : RecOK n (upd sil n true) r := by
+  refine ⟨?_, p.n0_le, p.static, p.kept⟩
+  rw [p.all]
+  exact (filter_upd_sil (fun x hx => Nat.lt_of_lt_of_le (p.static.old x hx).2 p.n0_le)).symm
 
 theorem Inv_init : Inv init := by
   refine ⟨⟨by decide, by decide, by decide, by simp [init, content, cellsOf], ?_, by decide⟩, ?_, ?_, ?_, rfl⟩
@@ -92,7 +120,19 @@ theorem Inv_step (grow : Nat → Nat) {s s' : State} (a : Act) (inv : Inv s)
     split at hs
     · cases hs
       have ⟨w', hc, e⟩ := appendSub_spec grow inv.wf
-      refine ⟨w', fun u fr hfr => FrameOK.ext e (inv.frames u fr hfr), ?_, inv.ended, inv.hq⟩
+      refine ⟨w', fun u fr hfr => FrameOK.ext e (inv.frames u fr hfr), ?_,
+        fun r hr => (inv.ended r hr).mono (Nat.le_succ _), inv.hq⟩
+      intro x hx
+      have ⟨h0, hlt, hn⟩ := inv.done x hx
+      exact ⟨h0, Nat.lt_succ_of_lt hlt, e.gone x h0 hlt hn⟩
+    · cases hs
+  | subscribeNil t =>
+    simp only [step] at hs
+    split at hs
+    · cases hs
+      have ⟨w', hc, e⟩ := appendSub_spec grow inv.wf
+      refine ⟨w', fun u fr hfr => FrameOK.ext e (inv.frames u fr hfr).sil, ?_,
+        fun r hr => ((inv.ended r hr).sil).mono (Nat.le_succ _), inv.hq⟩
       intro x hx
       have ⟨h0, hlt, hn⟩ := inv.done x hx
       exact ⟨h0, Nat.lt_succ_of_lt hlt, e.gone x h0 hlt hn⟩
@@ -126,7 +166,7 @@ theorem Inv_step (grow : Nat → Nat) {s s' : State} (a : Act) (inv : Inv s)
         exact ⟨h0, hlt, e.gone y h0 hlt hn⟩
       · rename_i hi
         cases hs
-        have hfx : FrameOK s.heap s.subs s.nextId (.unsub x) := inv.frames t _ (by rw [hst]; simp)
+        have hfx : FrameOK s.heap s.subs s.nextId s.silent (.unsub x) := inv.frames t _ (by rw [hst]; simp)
         refine ⟨inv.wf, ?_, ?_, inv.ended, inv.hq⟩
         · apply frames_upd inv.frames
           intro fr hfr
@@ -144,7 +184,7 @@ theorem Inv_step (grow : Nat → Nat) {s s' : State} (a : Act) (inv : Inv s)
       apply frames_upd inv.frames
       intro fr hfr
       rcases List.mem_cons.1 hfr with rfl | hfr
-      · exact ⟨⟨inv.wf.arr_lt, fun _ => Nat.le_refl _⟩, rfl, inv.wf.length_content, Nat.zero_le _, rfl,
+      · exact ⟨⟨inv.wf.arr_lt, fun _ => Nat.le_refl _⟩, rfl, inv.wf.length_content, Nat.zero_le _, by simp,
           Nat.le_refl _, fun x _ _ hn => hn,
           ⟨inv.wf.sorted, inv.wf.pos, fun x hx => (inv.done x hx).2.2⟩⟩
       · exact inv.frames t fr hfr
@@ -153,16 +193,33 @@ theorem Inv_step (grow : Nat → Nat) {s s' : State} (a : Act) (inv : Inv s)
     simp only [step] at hs
     split at hs
     · rename_i f rest hst
-      have hf : PubOK s.heap s.subs s.nextId f := inv.frames t (.pub f) (by rw [hst]; simp)
-      have hrest : ∀ fr ∈ rest, FrameOK s.heap s.subs s.nextId fr :=
+      have hf : PubOK s.heap s.subs s.nextId s.silent f := inv.frames t (.pub f) (by rw [hst]; simp)
+      have hrest : ∀ fr ∈ rest, FrameOK s.heap s.subs s.nextId s.silent fr :=
         fun fr hfr => inv.frames t fr (by rw [hst]; exact List.mem_cons_of_mem _ hfr)
       split at hs
       · rename_i hk
-        have hf' : PubOK s.heap s.subs s.nextId
+        have hstep := readCell_of_content hf.same hk hf.len
+        split at hs
+        · -- the subscription has no OnNext: passed over
+          rename_i hsil
+          cases hs
+          refine ⟨inv.wf, ?_, inv.done, inv.ended, inv.hq⟩
+          apply frames_upd inv.frames
+          intro fr hfr
+          rcases List.mem_cons.1 hfr with rfl | hfr
+          · refine ⟨hf.prot, hf.same, hf.len, hk, ?_, hf.n0_le, hf.gone,
+              ⟨hf.static.sorted, hf.static.old, hf.static.notDone⟩⟩
+            show f.dl = (f.snap.take (f.k + 1)).filter _
+            rw [hstep, List.filter_append, ← hf.dl]
+            simp [hsil]
+          · exact hrest fr hfr
+        rename_i hsil
+        have hf' : PubOK s.heap s.subs s.nextId s.silent
             { f with k := f.k + 1, dl := f.dl ++ [readCell s.heap f.h f.k] } :=
           ⟨hf.prot, hf.same, hf.len, hk, by
-            show f.dl ++ _ = f.snap.take (f.k + 1)
-            rw [readCell_of_content hf.same hk hf.len, hf.dl], hf.n0_le, hf.gone,
+            show f.dl ++ _ = (f.snap.take (f.k + 1)).filter _
+            rw [hstep, List.filter_append, ← hf.dl]
+            simp [hsil], hf.n0_le, hf.gone,
             ⟨hf.static.sorted, hf.static.old, hf.static.notDone⟩⟩
         split at hs
         · cases hs
@@ -179,10 +236,7 @@ theorem Inv_step (grow : Nat → Nat) {s s' : State} (a : Act) (inv : Inv s)
         · cases hs
           refine ⟨inv.wf, ?_, inv.done, inv.ended, ?_⟩
           rotate_left
-          · have : State.posted { s with log := (f.pid, readCell s.heap f.h f.k, f.val, false) :: s.log }
-                = s.posted := by simp [State.posted]
-            show (State.posted _).reverse = _
-            simp only [State.posted, List.filter_cons] at this ⊢
+          · show (State.posted _).reverse = _
             simpa [State.posted] using inv.hq
           apply frames_upd inv.frames
           intro fr hfr
@@ -207,7 +261,7 @@ theorem Inv_step (grow : Nat → Nat) {s s' : State} (a : Act) (inv : Inv s)
     simp only [step] at hs
     split at hs
     · rename_i f rest hst
-      have hf : PubOK s.heap s.subs s.nextId f := inv.frames t (.pub f) (by rw [hst]; simp)
+      have hf : PubOK s.heap s.subs s.nextId s.silent f := inv.frames t (.pub f) (by rw [hst]; simp)
       split at hs
       · cases hs
       · rename_i hk
@@ -218,9 +272,9 @@ theorem Inv_step (grow : Nat → Nat) {s s' : State} (a : Act) (inv : Inv s)
           exact inv.frames t fr (by rw [hst]; exact List.mem_cons_of_mem _ hfr)
         · intro r hr
           rcases List.mem_cons.1 hr with rfl | hr
-          · refine ⟨?_, hf.static, ?_⟩
-            · show f.dl = f.snap
-              rw [hf.dl]; apply List.take_of_length_le
+          · refine ⟨?_, hf.n0_le, hf.static, ?_⟩
+            · show f.dl = f.snap.filter _
+              rw [hf.dl, List.take_of_length_le]
               have := hf.len; have := hf.k_le; omega
             · intro x h0 hx hmem
               show x ∈ f.snap
